@@ -21,6 +21,7 @@ Vocabulary (ZtypV/Proofs/IterNav.lean):
 * `indexedOut t n k`    what the index-based `Iter()` shows at `k`: the typed getter `Get(k)`
 -/
 import ZtypV.Proofs.IterNav
+import ZtypV.Proofs.ApiView
 namespace ZtypV.Props.C17
 open ZtypV ZtypV.View ZtypV.View.Iter
 
@@ -460,6 +461,45 @@ theorem C17_bit_limit_wraps (anchor : Node) (length depth : Nat) (hd : 56 ≤ de
     exact hl
 
 /-! ### 6. non-vacuity: concrete small trees (`ZtypV.View.Iter.Ex`) -/
+
+/-! ### 9. hand-written length nodes (a client that assembles list backings itself) -/
+
+/-- a length node holding more than the limit makes `Length()` fail … -/
+theorem C17_listLength_over_limit (c : Node) (ov lim : Nat) (hov : ov < 2 ^ 64) (hlt : lim < ov) :
+    listLength (.pair c (lengthNode ov)) lim = .error .other := by
+  have h8 : (chunkOf (leBytes 8 ov)).take 8 = leBytes 8 ov := by
+    have := chunkOf_take_self (leBytes 8 ov) (by simp)
+    simpa using this
+  have h9 : leNat (leBytes 8 ov) = ov := by
+    rw [leNat_leBytes]; apply Nat.mod_eq_of_lt
+    have : (256 : Nat) ^ 8 = 2 ^ 64 := by decide
+    omega
+  simp only [listLength, getNode, lengthNode, if_true, R.bind_ok, asLeaf_leaf, h8, h9]
+  rw [if_pos (by omega)]
+
+/-- … and then both iterators of a list or bitlist view over that backing (`ErrElemIter` /
+    `ErrBitIter`) report the error at every call, for ever: never a component, never an end -/
+theorem C17_tampered_list (e : Ty) (c : Node) (ov lim : Nat) (hov : ov < 2 ^ 64) (hlt : lim < ov)
+    (ro : Bool) (m : Nat) :
+    runSteps AnyIt.next m (start (.list e lim) (.pair c (lengthNode ov)) ro) = List.replicate m .err := by
+  have h1 : start (.list e lim) (.pair c (lengthNode ov)) ro = .failed := by
+    unfold start; simp [C17_listLength_over_limit c ov lim hov hlt]
+  rw [h1]; exact anyFailed_run m
+
+theorem C17_tampered_bitlist (c : Node) (ov lim : Nat) (hov : ov < 2 ^ 64) (hlt : lim < ov)
+    (ro : Bool) (m : Nat) :
+    runSteps AnyIt.next m (start (.bitlist lim) (.pair c (lengthNode ov)) ro) = List.replicate m .err := by
+  have h1 : start (.bitlist lim) (.pair c (lengthNode ov)) ro = .failed := by
+    unfold start; simp [C17_listLength_over_limit c ov lim hov hlt]
+  rw [h1]; exact anyFailed_run m
+
+/-- the harness op `tamper` on a list backing is exactly this replacement -/
+theorem C17_tamper_is_replacement (l r : Node) (ov : Nat) :
+    Api.tamperLength (.pair l r) ov = .ok (.pair l (lengthNode ov)) := rfl
+
+example : runSteps AnyIt.next 3 (start (.list (.uint 8) 4) (.pair (.leaf z0) (lengthNode 5)) true) = [.err, .err, .err] :=
+  C17_tampered_list _ _ 5 4 (by decide) (by decide) true 3
+
 
 section Examples
 open Ex
